@@ -63,6 +63,12 @@ MUTANTS = [
     ('validateYAML stores the re-encoded document instead of the bytes it was given', 'snaps/matchYAML.go',
      '\t\treturn y, nil\n', '\t\ty, _ = yaml.Marshal(out)\n\t\treturn y, nil\n',
      lambda f, rc: f.get('funcs', {}).get('validateYAML') != BASE['funcs']['validateYAML']),
+    ('testEvents.register counts without the lock (a primitive the run-time semantics assumes)', 'snaps/clean.go',
+     '\te.Lock()\n\tdefer e.Unlock()\n\te.items[event]++\n', '\te.items[event]++\n',
+     lambda f, rc: rc == 0 and 'prim events.register' in (f.get('failed') or {})),
+    ('match.Any no longer fails on a missing path by default', 'match/any.go',
+     'errOnMissingPath: true,\n\t\tplaceholder:', 'errOnMissingPath: false,\n\t\tplaceholder:',
+     lambda f, rc: rc == 0 and 'prim Any' in (f.get('failed') or {})),
     ('snapshotPath joins a relative Dir even under -trimpath', 'snaps/snapshot.go',
      '\tif !filepath.IsAbs(dir) && !isTrimBathBuild {\n', '\tif !filepath.IsAbs(dir) {\n',
      lambda f, rc: rc == 0 and changed(f, 'snapshotPath', 'if (!(GoSnaps.fpIsAbs dir)) then') and others_same(f, 'snapshotPath')),
